@@ -154,6 +154,21 @@ Definition reply_builder_fns : program :=
     {| fn_name := "BuilderT::converter_raw"; fn_params := ["self"; "args"; "reply_on_hole"; "reply_id_hole"]; fn_consts := [];
      fn_body := (EBlock [SLet (PVar "payload") (EVar "args"); STail (ECon "Ok" [(ERecord "SubMsg" [("reply_on", (EVar "reply_on_hole")); ("id", (EVar "reply_id_hole")); ("msg", (ECon "Into::into" [(EVar "self")])); ("payload", (EVar "payload")); ("gas_limit", (ECon "None" []))] None)])]) |} ].
 
+(* GENERATED code: the extraction of the reply data, one function per declared data mode *)
+Definition reply_data_fns : program :=
+  [ {| fn_name := "DataT::raw_opt"; fn_params := ["data"; "missing_data_err"; "invalid_reply_data_err"]; fn_consts := [];
+     fn_body := (EBlock [STail (ECon "Ok" [(EVar "data")])]) |};
+    {| fn_name := "DataT::raw"; fn_params := ["data"; "missing_data_err"; "invalid_reply_data_err"]; fn_consts := [];
+     fn_body := (EBlock [SLet (PVar "data") (EMatch (EVar "data") [((PCon "Some" [(PVar "data")]), (EVar "data")); ((PCon "None" []), (EReturn (ECon "Err" [(ECon "Into::into" [(ECon "StdError::GenericErr" [(EVar "missing_data_err")])])])))]); STail (ECon "Ok" [(EVar "data")])]) |};
+    {| fn_name := "DataT::inst_opt"; fn_params := ["data"; "missing_data_err"; "invalid_reply_data_err"]; fn_consts := [];
+     fn_body := (EBlock [SLet (PVar "data") (EMatch (EVar "data") [((PCon "Some" [(PVar "data")]), (EBlock [SLet (PVar "deserialized_data") (EMatch (EMatch (ECall "extern::parse_instantiate_response_data" [(ECall "into" [(EVar "data")])]) [(PCon "Ok" [PVar "hof_v1"], ECon "Ok" [EVar "hof_v1"]); (PCon "Err" [PVar "hof_v1"], ECon "Err" [EBlock [SLet (PVar "err") (EVar "hof_v1"); STail (ECon "StdError::GenericErr" [(ECon "format" [(EConst (VStr "Failed deserializing protobuf data: {}")); (EVar "err")])])]])]) [(PCon "Ok" [PVar "try_v"], EVar "try_v"); (PCon "Err" [PVar "try_e"], EReturn (ECon "Err" [ECon "From::from" [EVar "try_e"]]))]); STail (ECon "Some" [(EVar "deserialized_data")])])); ((PCon "None" []), (ECon "None" []))]); STail (ECon "Ok" [(EVar "data")])]) |};
+    {| fn_name := "DataT::inst"; fn_params := ["data"; "missing_data_err"; "invalid_reply_data_err"]; fn_consts := [];
+     fn_body := (EBlock [SLet (PVar "data") (EMatch (EVar "data") [((PCon "Some" [(PVar "data")]), (EBlock [SLet (PVar "deserialized_data") (EMatch (EMatch (ECall "extern::parse_instantiate_response_data" [(ECall "into" [(EVar "data")])]) [(PCon "Ok" [PVar "hof_v1"], ECon "Ok" [EVar "hof_v1"]); (PCon "Err" [PVar "hof_v1"], ECon "Err" [EBlock [SLet (PVar "err") (EVar "hof_v1"); STail (ECon "StdError::GenericErr" [(ECon "format" [(EConst (VStr "Failed deserializing protobuf data: {}")); (EVar "err")])])]])]) [(PCon "Ok" [PVar "try_v"], EVar "try_v"); (PCon "Err" [PVar "try_e"], EReturn (ECon "Err" [ECon "From::from" [EVar "try_e"]]))]); STail (EVar "deserialized_data")])); ((PCon "None" []), (EReturn (ECon "Err" [(ECon "Into::into" [(ECon "StdError::GenericErr" [(EVar "missing_data_err")])])])))]); STail (ECon "Ok" [(EVar "data")])]) |};
+    {| fn_name := "DataT::opt"; fn_params := ["data"; "missing_data_err"; "invalid_reply_data_err"]; fn_consts := [];
+     fn_body := (EBlock [SLet (PVar "data") (EMatch (EVar "data") [((PCon "Some" [(PVar "data")]), (EBlock [SLet (PVar "deserialized_data") (EMatch (EMatch (ECall "extern::parse_execute_response_data" [(ECall "into" [(EVar "data")])]) [(PCon "Ok" [PVar "hof_v1"], ECon "Ok" [EVar "hof_v1"]); (PCon "Err" [PVar "hof_v1"], ECon "Err" [EBlock [SLet (PVar "err") (EVar "hof_v1"); STail (ECon "StdError::GenericErr" [(ECon "format" [(EConst (VStr "Failed deserializing protobuf data: {}")); (EVar "err")])])]])]) [(PCon "Ok" [PVar "try_v"], EVar "try_v"); (PCon "Err" [PVar "try_e"], EReturn (ECon "Err" [ECon "From::from" [EVar "try_e"]]))]); SLet (PVar "deserialized_data") (EMatch (EField (EVar "deserialized_data") "data") [((PCon "Some" [(PVar "data")]), (EMatch (EMatch (ECall "extern::from_json" [(EVar "data")]) [(PCon "Ok" [PVar "hof_v2"], ECon "Ok" [EVar "hof_v2"]); (PCon "Err" [PVar "hof_v2"], ECon "Err" [EBlock [SLet (PVar "err") (EVar "hof_v2"); STail (ECon "StdError::GenericErr" [(EVar "invalid_reply_data_err")])]])]) [(PCon "Ok" [PVar "try_v"], EVar "try_v"); (PCon "Err" [PVar "try_e"], EReturn (ECon "Err" [ECon "From::from" [EVar "try_e"]]))])); ((PCon "None" []), (EReturn (ECon "Err" [(ECon "Into::into" [(ECon "StdError::GenericErr" [(EVar "missing_data_err")])])])))]); STail (ECon "Some" [(EVar "deserialized_data")])])); ((PCon "None" []), (ECon "None" []))]); STail (ECon "Ok" [(EVar "data")])]) |};
+    {| fn_name := "DataT::typed"; fn_params := ["data"; "missing_data_err"; "invalid_reply_data_err"]; fn_consts := [];
+     fn_body := (EBlock [SLet (PVar "data") (EMatch (EVar "data") [((PCon "Some" [(PVar "data")]), (EBlock [SLet (PVar "deserialized_data") (EMatch (EMatch (ECall "extern::parse_execute_response_data" [(ECall "into" [(EVar "data")])]) [(PCon "Ok" [PVar "hof_v1"], ECon "Ok" [EVar "hof_v1"]); (PCon "Err" [PVar "hof_v1"], ECon "Err" [EBlock [SLet (PVar "err") (EVar "hof_v1"); STail (ECon "StdError::GenericErr" [(ECon "format" [(EConst (VStr "Failed deserializing protobuf data: {}")); (EVar "err")])])]])]) [(PCon "Ok" [PVar "try_v"], EVar "try_v"); (PCon "Err" [PVar "try_e"], EReturn (ECon "Err" [ECon "From::from" [EVar "try_e"]]))]); SLet (PVar "deserialized_data") (EMatch (EField (EVar "deserialized_data") "data") [((PCon "Some" [(PVar "data")]), (EMatch (EMatch (ECall "extern::from_json" [(EVar "data")]) [(PCon "Ok" [PVar "hof_v2"], ECon "Ok" [EVar "hof_v2"]); (PCon "Err" [PVar "hof_v2"], ECon "Err" [EBlock [SLet (PVar "err") (EVar "hof_v2"); STail (ECon "StdError::GenericErr" [(EVar "invalid_reply_data_err")])]])]) [(PCon "Ok" [PVar "try_v"], EVar "try_v"); (PCon "Err" [PVar "try_e"], EReturn (ECon "Err" [ECon "From::from" [EVar "try_e"]]))])); ((PCon "None" []), (EReturn (ECon "Err" [(ECon "Into::into" [(ECon "StdError::GenericErr" [(EVar "missing_data_err")])])])))]); STail (EVar "deserialized_data")])); ((PCon "None" []), (EReturn (ECon "Err" [(ECon "Into::into" [(ECon "StdError::GenericErr" [(EVar "missing_data_err")])])])))]); STail (ECon "Ok" [(EVar "data")])]) |} ].
+
 (* sylvia/src/into_response.rs: IntoMsg / IntoResponse; `enabled_features` = the cargo features switched on *)
 Definition resp_program (enabled_features : list string) : program :=
   [ {| fn_name := "SubMsg::into_msg"; fn_params := ["self"]; fn_consts := [];
